@@ -216,3 +216,47 @@ fn cross_validate_is_mean_of_folds() {
     assert!(r[1] == ((f0 + 2.0) + (f1 + 2.0)) / 2.0);
     assert!(ds.records == rec);
 }
+
+// ---------- batch 5 ----------
+use crate::metrics_regression::SingleTargetRegression;
+#[kani::proof]
+#[kani::unwind(6)]
+#[kani::stub(alloc::fmt::format, fmt_stub)]
+fn explained_variance_textbook() {
+    let a: [i8; 2] = kani::any(); let b: [i8; 2] = kani::any();
+    for i in 0..2 { kani::assume(a[i] >= -4 && a[i] <= 4 && b[i] >= -4 && b[i] <= 4); }
+    kani::assume(b[0] != b[1]);
+    let pred = Array1::from(vec![a[0] as f32, a[1] as f32]);
+    let truth = Array1::from(vec![b[0] as f32, b[1] as f32]);
+    let ev: f32 = pred.explained_variance(&truth).unwrap();
+    // textbook: 1 - Var(pred - truth) / Var(truth), population variances; n = 2 so everything is exact in quarters
+    let d0 = (a[0] - b[0]) as f32; let d1 = (a[1] - b[1]) as f32;
+    let md = (d0 + d1) / 2.0;
+    let var_d = ((d0 - md) * (d0 - md) + (d1 - md) * (d1 - md)) / 2.0;
+    let mb = (b[0] as f32 + b[1] as f32) / 2.0;
+    let var_b = ((b[0] as f32 - mb) * (b[0] as f32 - mb) + (b[1] as f32 - mb) * (b[1] as f32 - mb)) / 2.0;
+    let want = 1.0 - var_d / var_b;
+    assert!((ev - want).abs() <= 1.0e-3);
+}
+
+#[kani::proof]
+#[kani::unwind(6)]
+#[kani::stub(alloc::fmt::format, fmt_stub)]
+fn split_view_and_sample_iter() {
+    let ratio: f32 = kani::any();
+    kani::assume(ratio >= 0.0 && ratio <= 1.0);
+    let rec = Array2::from_shape_vec((3, 1), vec![0u8, 10, 20]).unwrap();
+    let tar = Array1::from(vec![100u8, 101, 102]);
+    let ds = Dataset::new(rec, tar).with_weights(Array1::from(vec![0.5f32, 1.5, 2.5]));
+    let v = ds.view();
+    let (d1, d2) = v.split_with_ratio(ratio);
+    let n1 = (3.0f32 * ratio).ceil() as usize;
+    assert!(d1.nsamples() == n1 && d2.nsamples() == 3 - n1);
+    for i in 0..3 {
+        let (d, j) = if i < n1 { (&d1, i) } else { (&d2, i - n1) };
+        assert!(d.records[(j, 0)] == (10 * i) as u8 && d.targets[j] == 100 + i as u8 && d.weights[j] == 0.5 + i as f32);
+    }
+    let mut k = 0usize;
+    for (x, y) in ds.sample_iter() { assert!(x[0] == (10 * k) as u8 && *y.into_scalar() == 100 + k as u8); k += 1; }
+    assert!(k == 3);
+}
